@@ -704,4 +704,99 @@ class GenC13(Gen):
                  map_deepcopy=1, mapset_get_map=1)
 
 
-SCENARIOS = {"C16": GenC16, "C14": GenC14, "C12": GenC12, "C08": GenC08, "C13": GenC13}
+class GenC15(Gen):
+    """Twins: same multiset of rows, different delivery order, one operation f."""
+
+    table = dict(twin=1)
+    WRITE_GAMES = {"osu": "osu", "qua": "qua", "sm": "sm", "bms": "bms"}
+
+    def _plan(self, n):
+        how = self.r.choice(["unsorted", "unsorted", "append", "reverse_sort", "concat", "canonical"])
+        perm = list(range(n))
+        self.r.shuffle(perm)
+        return dict(how=how, perm=perm, cuts=sorted(self.r.sample(range(1, n), min(n - 1, self.r.choice([1, 2])))) if n > 1 else [])
+
+    def _chart(self, game, keys=None, shared_bpms=None):
+        lists, meta, keys = gen_chart(self.d, game, self.hi, keys=keys, sorted_p=1.0, distinct=True)
+        # chords: same time, different column (never the same (time, column))
+        notes = lists["hits"] + lists["holds"]
+        for n_ in notes:
+            if self.d.random() < 0.25 and len(notes) > 1:
+                o = self.d.choice(notes)
+                if o is not n_ and not any(x is not n_ and x["offset"] == o["offset"] and x["column"] == n_["column"] for x in notes):
+                    if n_["offset"] != min(x["offset"] for x in notes):
+                        n_["offset"] = o["offset"]
+        if shared_bpms is not None:
+            lists["bpms"] = [dict(b) for b in shared_bpms]
+        # SVs at pairwise distinct times
+        if "svs" in lists:
+            seen, keep = set(), []
+            for sv in lists["svs"]:
+                if sv["offset"] not in seen:
+                    seen.add(sv["offset"])
+                    keep.append(sv)
+            lists["svs"] = keep
+        for k in lists:
+            lists[k] = sorted(lists[k], key=lambda x: x["offset"])
+        plans = {k: self._plan(len(v)) for k, v in lists.items() if len(v) > 1}
+        return dict(lists=lists, meta=meta, plans=plans), keys
+
+    @staticmethod
+    def _dominant_unique(lists) -> bool:
+        notes = lists["hits"] + lists["holds"]
+        bp = sorted(lists["bpms"], key=lambda b: b["offset"])
+        if not notes or not bp:
+            return False
+        last = max(n_["offset"] for n_ in notes)
+        tot = {}
+        for a, b in zip(bp, bp[1:] + [dict(offset=last)]):
+            tot[a["bpm"]] = tot.get(a["bpm"], 0.0) + (b["offset"] - a["offset"])
+        v = sorted(tot.values(), reverse=True)
+        if v[0] <= 0:
+            return False
+        return len(v) == 1 or (v[0] - v[1]) > 1e-6 * max(1.0, abs(v[0]))
+
+    def p_twin(self):
+        game = self.r.choice(["osu", "osu", "qua", "qua", "sm", "bms", "o2j", "base"])
+        n_charts = 1 if game not in ("sm", "o2j") else (3 if game == "o2j" else self.r.choice([1, 2]))
+        charts, keys, shared = [], None, None
+        for _ in range(n_charts):
+            c, keys = self._chart(game, keys=7 if game == "o2j" else None, shared_bpms=shared)
+            if game == "sm" and shared is None:
+                shared = c["lists"]["bpms"]
+            charts.append(c)
+        fs = ["rate", "full_ln"]
+        convs = [c for c, spec in CONVERTERS.items() if spec[0] == game]
+        fs += ["convert:" + c for c in convs] * (2 if convs else 0)
+        analysis_ok = n_charts == 1 and game not in ("sm", "o2j") and self._dominant_unique(charts[0]["lists"])
+        if game in ("sm", "o2j"):
+            fs = [x for x in fs if x != "full_ln"]
+        if analysis_ok:
+            from .ops.algs import alg_precondition
+
+            fake = dict(lists={k: dict(rows=v) for k, v in charts[0]["lists"].items()})
+            if alg_precondition(fake):
+                fs += ["dominant_bpm", "dominant_bpm", "scroll_speed", "scroll_speed"]
+                if game in ("osu", "qua"):
+                    fs += ["sv_normalize", "sv_normalize"]
+        if game == "osu":
+            fs += ["hitsound_copy", "hitsound_copy"]
+        if game in self.WRITE_GAMES and self.s.knobs.get("writes", True):
+            fs += ["write:" + game] * 3
+        f = self.r.choice(fs)
+        op = self.mk("twin.compare", game=game, charts=charts, f=f, args={})
+        if game in ("sm", "o2j"):
+            op["set_meta"] = gen_set_meta(self.d, game)
+        if f == "rate":
+            op["args"] = dict(r=self.r.choice(self.RATES))
+        elif f == "full_ln":
+            op["args"] = dict(gap=self.r.choice([150, 0, 50, 100.5]), thres=self.r.choice([100, 0, 50]))
+        elif f in ("scroll_speed", "sv_normalize"):
+            op["args"] = dict(override=self.r.choice([None, None, 150.0]))
+        elif f == "hitsound_copy":
+            t, _ = self._chart("osu", keys=keys)
+            op["args"] = dict(tgt=t, permute=self.r.choice(["source", "target"]))
+        return op
+
+
+SCENARIOS = {"C16": GenC16, "C14": GenC14, "C12": GenC12, "C08": GenC08, "C13": GenC13, "C15": GenC15}
